@@ -78,7 +78,7 @@ pub struct Ctx {
     pub stop: bool,
     pub fault_armed: bool,
     pub kinds: Vec<String>,
-    pub seen_sigs: std::collections::HashSet<u64>,
+    pub seen_sigs: std::collections::BTreeSet<u64>,
 }
 
 fn prop_for_step(op: &Op) -> &'static str {
@@ -190,6 +190,13 @@ impl Ctx {
     }
 
     fn logev(&mut self, s: &str) {
+        if std::env::var_os("VSIM_DEBUG").is_some() {
+            use std::io::Write;
+            let _g = simdisk::HarnessGuard::enter();
+            if let Ok(mut f) = std::fs::OpenOptions::new().create(true).append(true).open(format!("/tmp/vsim-ev-{}.txt", std::process::id())) {
+                let _ = writeln!(f, "EV {}", s.chars().take(600).collect::<String>());
+            }
+        }
         self.log = mix(self.log, fnv1a(s.as_bytes()));
     }
 }
